@@ -346,7 +346,7 @@ def correspond(ctx):
         if Fraction(facts['time_eps']) != Fraction(repr(ss.options.time_eps)):
             ctx.broke('extract', 'PhaseOrder', f"time_eps extracted {facts['time_eps']} but ss.options.time_eps = {ss.options.time_eps!r}")
     rows = facts.get('rows') or []
-    ncases = ctx.budget(60, 500)
+    ncases = ctx.budget(90, 600)
     cases = [gen_case(ctx.rng) for _ in range(ncases)]
     corpus = load_corpus()
     cases = corpus + cases
@@ -551,7 +551,7 @@ def search(ctx):
         d = b.get('data') or {}
         if isinstance(d, dict) and 'case' in d and d['case'] not in cases:
             cases.append(d['case'])
-    n = ctx.budget(40, 400)
+    n = ctx.budget(60, 500)
     cases += [gen_case(ctx.rng, force_real=(i % 5 == 0)) for i in range(n)]
     for case in cases:
         fails = oracle_case(case)
